@@ -188,4 +188,78 @@ theorem stringExotic_define_aux {V} [DecidableEq V] (undef : V) (base : Obj V) (
         rw [lookup_put_other _ _ _ _ hne]
         exact hb n hn
 
+/-- [[Delete]] of a String exotic object: OrdinaryDelete (10.1.10.1) driven by the exotic [[GetOwnProperty]] — a
+character index is non-configurable, everything else lives in the ordinary part. -/
+def strDelete {V} (base : Obj V) (chars : List V) (k : Key) : Obj V × Bool :=
+  match strGetOwn base chars k with
+  | none => (base, true)
+  | some p => if p.configurable then ({ base with props := eraseKey base.props k }, true) else (base, false)
+
+theorem erase_append_right {α} (a b : List (Key × α)) (k : Key) (h : lookup a k = none) :
+    eraseKey (a ++ b) k = a ++ eraseKey b k := by
+  induction a with
+  | nil => simp
+  | cons y ys ih =>
+    obtain ⟨k0, a0⟩ := y
+    by_cases hk : k0 = k
+    · subst hk; simp [lookup] at h
+    · simp only [lookup, hk, if_false] at h
+      simp [eraseKey, hk, ih h]
+
+theorem lookup_erase_same_none {α} (l : List (Key × α)) (k k' : Key) (h : lookup l k' = none) :
+    lookup (eraseKey l k) k' = none := by
+  cases hx : lookup (eraseKey l k) k' with
+  | none => rfl
+  | some a =>
+    have := lookup_erase_isSome l k k' (by simp [hx])
+    rw [h] at this; cases this
+
+/-- [[Delete]]: exotic = OrdinaryDelete on the materialised object (same boolean, same resulting object), and the
+ordinary part still holds no character index. -/
+theorem stringExotic_delete_aux {V} (base : Obj V) (chars : List V) (hb : NoCharIdx base chars) (k : Key) :
+    (match lookup (strMat base chars).props k with
+      | none => (strMat base chars, true)
+      | some p => if p.configurable then ({ (strMat base chars) with props := eraseKey (strMat base chars).props k }, true)
+                  else (strMat base chars, false))
+      = (strMat (strDelete base chars k).1 chars, (strDelete base chars k).2)
+    ∧ NoCharIdx (strDelete base chars k).1 chars := by
+  have hget := stringExotic_getOwn_aux base chars hb k
+  rw [← hget]
+  simp only [strDelete]
+  cases hg : strGetOwn base chars k with
+  | none => exact ⟨rfl, hb⟩
+  | some p =>
+    simp only
+    cases hc : p.configurable with
+    | false => simp only [Bool.false_eq_true, if_false]; exact ⟨by trivial, hb⟩
+    | true =>
+      simp only [if_true]
+      -- a configurable own property is not a character index, so it lives in the ordinary part
+      have hA : lookup (strIdxProps chars 0) k = none := by
+        rw [lookup_strIdx_eq]
+        cases hs : strIndexDesc chars k with
+        | none => rfl
+        | some sd =>
+          have hbase : lookup base.props k = none := by
+            cases k with
+            | idx n =>
+              have hlt : n < chars.length := by
+                simp only [strIndexDesc] at hs
+                cases hq : chars[n]? with
+                | none => rw [hq] at hs; simp at hs
+                | some c => exact (List.getElem?_eq_some_iff.mp hq).1
+              exact hb n hlt
+            | str s => simp [strIndexDesc] at hs
+            | sym s => simp [strIndexDesc] at hs
+          simp only [strGetOwn, hbase, hs] at hg
+          cases hg
+          cases k with
+          | idx n => simp only [strIndexDesc] at hs; cases hq : chars[n]? <;> simp [hq] at hs; subst hs; simp [SProp.configurable] at hc
+          | str s => simp [strIndexDesc] at hs
+          | sym s => simp [strIndexDesc] at hs
+      refine ⟨?_, ?_⟩
+      · simp only [strMat, erase_append_right _ _ _ hA]
+      · intro n hn
+        exact lookup_erase_same_none _ _ _ (hb n hn)
+
 end GojaModel.C04
